@@ -49,7 +49,7 @@ RenderDocs ==
 (* universes per family *)
 Docs1 ==
   CASE Family \in {"codec"} -> AtomsWide \cup L1(AtomsSmall, KeysSmall, ObjValsSmall, Width) \cup L2(2)
-    [] Family \in {"acc", "edit"} -> AtomsSmall \cup {sTrue, s12, i1, im1, f1, u2p53p1, umax, imin} \cup ExtraDocs
+    [] Family \in {"acc", "edit"} -> AtomsSmall \cup {sTrue, s12, sNum15, sNumBig, i1, im1, f1, f2p53, fm0, u2p53p1, umax, imin} \cup ExtraDocs
                                        \cup L1(AtomsSmall, KeysSmall, ObjValsSmall, Width) \cup L2(2)
     [] Family \in {"acc11", "edit11"} -> AtomsSmall \cup {sTrue, s12, im1, f1, fm0, u2p53p1, sE, sSmile, sCtl, sQuote} \cup RepL1 \cup ExtraDocs
                                          \cup {Arr(<<u256, Null, f15>>), Arr(<<Arr(<<u1, sab>>), Obj(<< <<ka, Null>> >>)>>),
@@ -93,7 +93,8 @@ EmitAcc(x) ==
   \/ \E n \in NameArgs(x), c \in {0, 1} : Out(S1("get_by_name", x, [n |-> n, ic |-> c]))
   \/ \E p \in KPaths(x, Depth(x) + 1) : Out(S1("get_by_keypath", x, [kp |-> p]))
   \/ \E o \in {"array_length", "object_keys", "object_each", "array_values", "type_of", "casts", "to_string", "to_pretty_string", "lazy"} : Out(S1(o, x, NoArg))
-  \/ \E ks \in KeyLists(x) \cup {<<n>> : n \in NameArgs(x)}, c \in {0, 1} : Out(S1("exists_keys", x, [keys |-> ks, all |-> c]))
+  \/ \E ks \in KeyLists(x) \cup {<<n>> : n \in NameArgs(x)} \cup {<<ka, <<195>>>>, <<<<255>>, ka>>, <<<<195, 40>>>>}, c \in {0, 1} :
+        Out(S1("exists_keys", x, [keys |-> ks, all |-> c]))
   \/ \E n \in NameArgs(x) : Out(S1("traverse", x, [pred |-> [eq |-> n]]))
   \/ \E b \in {97, 98, 0} : Out(S1("traverse", x, [pred |-> [has |-> b]]))
   \/ \E n \in NameArgs(x) : Out(S1("value_api", x, [n |-> n]))
